@@ -31,10 +31,10 @@ nfiles=sum(len(k['cell'].split(' | ')) for k in docs)
 rows.append(f"| KF-C08-F00 … F{len(docs)-1:02d} | C08 | one entry per failure class | {nfiles} of the repository's .mec documents do not survive the text formatter (prose, lists, fences and embedded code are emitted in forms that re-parse differently or not at all); each entry lists the exact files, so any other document, or a listed one failing differently, is reported | (the files themselves) |")
 blocks['findings']='\n'.join(rows)
 # seeded mutants
-rows=["| seeded change | property | what it needs to manifest | caught by | first failure class reported |","|---|---|---|---|---|"]
+rows=["| seeded change | property | files | what it needs to manifest | result of the property's check | violation classes reported |","|---|---|---|---|---|---|"]
 for m in sorted(glob.glob(f'{V}/seeded/*/meta.json')):
     d=json.load(open(m))
-    rows.append(f"| {os.path.basename(os.path.dirname(m))} | {d['property']} | {esc(d.get('needs',''))} | {esc(d.get('caught_by',''))} | `{esc(d.get('class',''))}` |")
+    rows.append(f"| {os.path.basename(os.path.dirname(m))} | {d['property']} | {esc(', '.join(os.path.basename(x) for x in d.get('files',[])))} | {esc(d.get('needs_to_manifest',''))} | {esc(d.get('check_result',''))} | `{esc(d.get('violation_classes',''))}` |")
 blocks['seeded']='\n'.join(rows)
 # evidence summary
 rows=["| property | tier | evaluations | distinct non-trivial | cells | held / violated(listed) / inconclusive | wall s |","|---|---|---|---|---|---|---|"]
